@@ -353,7 +353,7 @@ class C06(Spec):
     def cases(self, rng, tier):
         quick = tier == 'quick'
         yield from self._float_cases(rng, 4000 if quick else 200000)
-        for i in range(500 if quick else 6000):
+        for i in range(500 if quick else 3000):
             yield self._pipe_case(rng, big=(i % 3 == 0))
 
     # ------------------------------------------------------------------ lines
